@@ -30,7 +30,7 @@ int glamfit_complex(
     uint32_t monodim, int verbose, cholmod_common *c);
 
 cholmod_sparse* add_penalty_term(uint64_t* nsplines, double* knots, uint32_t ndim,
-    uint32_t dim, uint32_t order, uint32_t porder, double scale, int mono,
+    uint32_t dim, uint32_t order, uint32_t porder, double scale, uint32_t monodim,
     cholmod_sparse* penalty, cholmod_common* c);
 
 #ifdef __cplusplus
